@@ -173,6 +173,13 @@ def sample_states(mjm, rng, kind, nworld=3):
   for w in range(nworld):
     vel = float(rng.choice([0.3, 3.0])) if kind != "contact" else 0.5
     st = gen.sample_state(mjm, rng, vel=vel, quat_scale=(kind != "contact"), applied=(kind != "contact" or w == 0))
+    if kind == "repo" and mjm.nbody > 12 and np.any(mjm.geom_contype | mjm.geom_conaffinity):
+      # colliding repository models: stay near the reference pose (random poses give deep, stiff penetrations)
+      q0 = np.array(mjm.qpos0, dtype=np.float64)
+      for j in range(mjm.njnt):
+        if mjm.jnt_type[j] in (mujoco.mjtJoint.mjJNT_HINGE, mujoco.mjtJoint.mjJNT_SLIDE):
+          q0[mjm.jnt_qposadr[j]] += rng.normal() * 0.1
+      st["qpos"] = q0.astype(np.float32)
     if kind == "contact":
       # keep the generated resting pose (touching the plane); small tangential / normal velocities
       st["qpos"] = np.array(mjm.qpos0, dtype=np.float32)
